@@ -482,6 +482,7 @@ def ut_case(g, tier, idx):
     valid = True
     if mode in ("gen", "mm", "amm") and r.random() < 0.15:
         valid = False
+    fail_data = (not valid) and r.random() < 0.5
     astyle = r.choice(["general", "general", "general", "identity", "rank1", "zero", "dyadic", "triangular"])
     if astyle == "identity" and ny == nx:
         A = [[(1.0 if i == j else 0.0) for j in range(n)] for i in range(ny)]
@@ -511,14 +512,14 @@ def ut_case(g, tier, idx):
         Nadd = scale_cov(rnd_psd(g, ny, r.choice(["full", "dyadic", "singular", "zero"])), dn)
     if skind in ("tiny", "small", "large", "huge"):
         bv = [v * d[0] for v in bv]
-    meta = {"mode": mode, "nx": nx, "nz": nz, "ny": ny, "k": k, "alpha": alpha, "beta": beta, "kappa": kappa, "valid": valid,
+    meta = {"mode": mode, "nx": nx, "nz": nz, "ny": ny, "k": k, "alpha": alpha, "beta": beta, "kappa": kappa, "valid": valid, "fail_data": fail_data,
             "A": A, "b": bv, "means": means, "Ps": Ps, "Qin": Qin, "Nadd": Nadd, "astyle": astyle, "pstyle": pstyle, "scale": skind}
     return ut_line(meta), meta
 
 
 def ut_line(meta):
     nx, nz, ny, k = meta["nx"], meta["nz"], meta["ny"], meta["k"]
-    toks = ["ut", meta["mode"], str(nx), str(nz), str(ny), str(k), hexd(meta["alpha"]), hexd(meta["beta"]), hexd(meta["kappa"]), "1" if meta["valid"] else "0"]
+    toks = ["ut", meta["mode"], str(nx), str(nz), str(ny), str(k), hexd(meta["alpha"]), hexd(meta["beta"]), hexd(meta["kappa"]), vcode(meta)]
     toks += cm_tokens(meta["A"]) + [hexd(v) for v in meta["b"]]
     toks += [hexd(meta["means"][i][j]) for i in range(k) for j in range(nx)]
     toks += [hexd(meta["Ps"][i][a][b]) for i in range(k) for b in range(nx) for a in range(nx)]
@@ -526,6 +527,14 @@ def ut_line(meta):
     if meta["Nadd"] is not None:
         toks += cm_tokens(meta["Nadd"])
     return " ".join(toks)
+
+
+def vcode(meta):
+    """validity token of the harness: 1 valid; 0 failed with an empty Data; 2 failed but a non-empty matrix (the
+    stale / partial prediction) is handed back with the `false`"""
+    if meta["valid"]:
+        return "1"
+    return "2" if meta.get("fail_data") else "0"
 
 
 def parse_ut_out(h, meta):
@@ -793,6 +802,9 @@ def transform_stage(ctx, binary, stats, hist, notes, only=None):
     for ci, ((line, meta), h) in enumerate(zip(cases, hout)):
         hist["ut:mode=" + meta["mode"]] = hist.get("ut:mode=" + meta["mode"], 0) + 1
         hist["ut:valid=%d" % meta["valid"]] = hist.get("ut:valid=%d" % meta["valid"], 0) + 1
+        if not meta["valid"]:
+            kf_ = "ut:failed-evaluation:" + ("non-empty data handed back" if meta.get("fail_data") else "empty data")
+            hist[kf_] = hist.get(kf_, 0) + 1
         hist["ut:noise-rows=%d" % meta["nz"]] = hist.get("ut:noise-rows=%d" % meta["nz"], 0) + 1
         hist["ut:components=%d" % meta["k"]] = hist.get("ut:components=%d" % meta["k"], 0) + 1
         hist["ut:A=" + meta["astyle"]] = hist.get("ut:A=" + meta["astyle"], 0) + 1
@@ -854,7 +866,7 @@ def q_conj(a):
 def q_log2(q):
     """2 log(q) as a rotation vector, with the code's cut-off and sign handling"""
     nn = math.sqrt(q[1] * q[1] + q[2] * q[2] + q[3] * q[3])
-    if nn > 1e-4:
+    if nn > 5e-5:
         w = max(-1.0, min(1.0, q[0]))
         f = (-2.0 * math.acos(-w)) if w < 0 else (2.0 * math.acos(w))
         return [f * q[1] / nn, f * q[2] / nn, f * q[3] / nn]
@@ -986,7 +998,8 @@ def circ_case(g, tier):
     pq = [rnd_unit_quat(g) for _ in range(circO)]
     side = [r.choice([0, 1]) for _ in range(circO)]
     valid = r.random() > 0.08
-    meta = {"li": li, "lo": lo, "k": k, "alpha": alpha, "beta": beta, "kappa": kappa, "c": c, "valid": valid, "style": style,
+    fail_data = (not valid) and r.random() < 0.5
+    meta = {"li": li, "lo": lo, "k": k, "alpha": alpha, "beta": beta, "kappa": kappa, "c": c, "valid": valid, "fail_data": fail_data, "style": style,
             "A": A, "bl": bl, "Cl": Cl, "sgn": sgn, "perm": perm, "bc": bc, "pq": pq, "side": side, "means": means, "Ps": Ps, "Qin": Qin}
     return circ_line(meta), meta
 
@@ -996,7 +1009,7 @@ def circ_line(meta):
     linI, circI, quat, nz, linO, circO = li.lin, li.circ, li.quat, li.noise, lo.lin, lo.circ
     dof0 = li.dof - nz
     toks = ["utc", str(linI), str(circI), "1" if quat else "0", str(nz), str(linO), str(circO), str(k),
-            hexd(meta["alpha"]), hexd(meta["beta"]), hexd(meta["kappa"]), "1" if meta["valid"] else "0"]
+            hexd(meta["alpha"]), hexd(meta["beta"]), hexd(meta["kappa"]), vcode(meta)]
     toks += cm_tokens(meta["A"]) if linO else []
     toks += [hexd(v) for v in meta["bl"]]
     toks += cm_tokens(meta["Cl"]) if (circO and linI) else []
